@@ -74,20 +74,23 @@ class BaseRandomLineAccessFile(collections.abc.Sequence, Generic[C], ABC):
         if self.closed:
             raise RuntimeError("Firstly open the file.")
 
-        if self._dirty:
-            for n in range(len(self)):
+        # Reading without a seek is faster, but it is correct only when the next line of the file is the next line
+        # of the index and nobody else (random access, another iteration) moved the file cursor in the meantime.
+        reader = object()
+        n = 0
+        # The length and the dirty flag are checked for every line, because the content may be edited during
+        # the iteration (the iteration then acts like the iteration over a list).
+        while n < len(self):
+            if self._dirty:
                 yield self._get_item(n)
-        else:
-            # Reading without a seek is faster, but it is correct only when the next line of the file is the next line
-            # of the index and nobody else (random access, another iteration) moved the file cursor in the meantime.
-            reader = object()
-            for n in range(len(self)):
+            else:
                 # the iteration may continue in a forked process, the reopened handle starts at the beginning of the file
                 self.reopen_if_needed()
                 if not self._sequential_index or self._last_sequential_reader is not reader:
                     self._file_seek(self._lines[n])
                     self._last_sequential_reader = reader
                 yield self._read_next_line()
+            n += 1
 
     def reopen_if_needed(self):
         """
